@@ -79,14 +79,16 @@ def case_arrays(case):
     cfg = case["cfg"]
     field = sk.make_field(cfg)
     n, d = cfg["n"], cfg["d"]
-    C = np.asarray(case["C"], float) * 0.5
-    # damp the quadratic coefficients further
-    for m, a in enumerate(field.alpha):
-        if sum(a) >= 2:
-            C[:, m] *= 0.25
-    # tame the dynamics: Lipschitz constant x horizon stays O(1), so trajectories do not blow up
-    T = float(np.sum(case["incs"]))
-    C *= min(1.0, 1.0 / T)
+    C = np.asarray(case["C"], float)
+    if not case.get("C_direct"):
+        C = C * 0.5
+        # damp the quadratic coefficients further
+        for m, a in enumerate(field.alpha):
+            if sum(a) >= 2:
+                C[:, m] *= 0.25
+        # tame the dynamics: Lipschitz constant x horizon stays O(1), so trajectories do not blow up
+        T = float(np.sum(case["incs"]))
+        C *= min(1.0, 1.0 / T)
     tc = np.asarray(case["tc"], float)
     if case.get("tc_mode") == "consistent":
         # Taylor coefficients of the true solution (what a user passes); float series arithmetic
